@@ -102,9 +102,10 @@ Print Assumptions C16_compile_correct_straightline.
 (* ---------- statements with control flow are compiled correctly ---------- *)
 (* Fragment psfrag: a top-level sequence of declarations `x := e` and of
    statements built from assignments `x = e` to globals, `if c … {else if c …}
-   [else …] end` chains and `while c … end`, arbitrarily nested, all
-   expressions in efrag (_partial: no break, for loops, block-local
-   declarations, arrays/maps).  The semantics exec_l is a
+   [else …] end` chains, `while c … end` and `break` (inside a while only:
+   nb_stmt), arbitrarily nested, all expressions in efrag (_partial: no for
+   loops, block-local declarations, arrays/maps).  The boolean of a result of
+   exec_l says that a break is under way; a while loop ends it.  The semantics exec_l is a
    fuel-indexed big-step semantics defined in CompileSemProofs.v on top of
    eval_expr (IEEE primitive floats); a while loop consumes fuel per iteration.
    For every such program: if the compiler succeeds and the semantics is
@@ -116,10 +117,12 @@ Print Assumptions C16_compile_correct_straightline.
    chain: the code with pending end jumps, LAYC false, is turned into the
    final one by the patching of compileIfStatement, layc_patch), and the
    simulation sim_all goes by induction on the fuel, re-entering a loop at
-   its start pc after the back jump and leaving a chain through the end jump
-   of the block that ran. *)
+   its start pc after the back jump, leaving a chain through the end jump
+   of the block that ran, and following a break jump to the end of its loop
+   (lay_brk_patch: compileWhileStatement's patching of c.breaks gives every
+   pending break jump of the body that target and changes nothing else). *)
 Theorem C16_compile_correct_ctl_partial : forall (p : slist) (st : cstate) (fuel : nat) (env' : genv),
-  psfrag p = true -> compile p = COk st -> exec_l fuel p (fun _ => None) = Some env' ->
+  psfrag p = true -> compile p = COk st -> exec_l fuel p (fun _ => None) = Some (env', false) ->
   (ldepth p <= Gen.Opcodes.StackSize)%N ->
   let prog := program_of (bytecode_of st) in
   exists s, reaches prog (vm_init prog) s /\
@@ -267,8 +270,8 @@ Definition ex_sem : slist :=
 Example C16_ex_sem_defined :
   psfrag ex_sem = true /\ (ldepth ex_sem <= Gen.Opcodes.StackSize)%N /\
   match exec_l 40 ex_sem (fun _ => None) with
-  | Some env => env (s_ "x") = Some (VNum (float_of_Z 5)) /\ env (s_ "t") = Some (VNum (float_of_Z 7))
-  | None => False
+  | Some (env, false) => env (s_ "x") = Some (VNum (float_of_Z 5)) /\ env (s_ "t") = Some (VNum (float_of_Z 7))
+  | _ => False
   end /\
   match compile ex_sem with
   | COk st => match vm_run 2000 (program_of (bytecode_of st)) (vm_init (program_of (bytecode_of st))) with
@@ -295,8 +298,8 @@ Definition ex_elif : slist :=
 Example C16_ex_elif_defined :
   psfrag ex_elif = true /\ (ldepth ex_elif <= Gen.Opcodes.StackSize)%N /\
   match exec_l 40 ex_elif (fun _ => None) with
-  | Some env => env (s_ "x") = Some (VNum (float_of_Z 6)) /\ env (s_ "t") = Some (VNum (float_of_Z 1113))
-  | None => False
+  | Some (env, false) => env (s_ "x") = Some (VNum (float_of_Z 6)) /\ env (s_ "t") = Some (VNum (float_of_Z 1113))
+  | _ => False
   end /\
   match compile ex_elif with
   | COk st => match vm_run 2000 (program_of (bytecode_of st)) (vm_init (program_of (bytecode_of st))) with
@@ -306,6 +309,42 @@ Example C16_ex_elif_defined :
   | CErr _ => False
   end.
 Proof. vm_compute. repeat split; try reflexivity. discriminate. Qed.
+
+(* x := 0; t := 0
+   while true: x = x + 1
+     if x == 2: t = t + 100 else if x == 4: break else t = t + 1 end
+     t = t + 10
+   end        -- x = 4, t = 1 + 10 + 100 + 10 + 1 + 10 = 132 *)
+Definition ex_break : slist :=
+  let xeq k := EBin BEq TNum TNum (EVar (s_ "x")) (ENum (float_of_Z k)) in
+  let tadd k := SAssign (EVar (s_ "t")) (EBin BPlus TNum TNum (EVar (s_ "t")) (ENum (float_of_Z k))) in
+  SCons (SDecl (s_ "x") (ENum (float_of_Z 0)))
+ (SCons (SDecl (s_ "t") (ENum (float_of_Z 0)))
+ (SCons (SWhile (EBool true)
+          (SCons (SAssign (EVar (s_ "x")) (EBin BPlus TNum TNum (EVar (s_ "x")) (ENum (float_of_Z 1))))
+          (SCons (SIf (xeq 2%Z) (SCons (tadd 100%Z) SNil)
+                      (CCons (xeq 4%Z) (SCons SBreak SNil) CNil)
+                      (Else (SCons (tadd 1%Z) SNil)))
+          (SCons (tadd 10%Z) SNil)))) SNil)).
+
+Example C16_ex_break_defined :
+  psfrag ex_break = true /\ (ldepth ex_break <= Gen.Opcodes.StackSize)%N /\
+  match exec_l 40 ex_break (fun _ => None) with
+  | Some (env, false) => env (s_ "x") = Some (VNum (float_of_Z 4)) /\ env (s_ "t") = Some (VNum (float_of_Z 132))
+  | _ => False
+  end /\
+  match compile ex_break with
+  | COk st => match vm_run 2000 (program_of (bytecode_of st)) (vm_init (program_of (bytecode_of st))) with
+              | FHalted s => nth_error (globals s) 1 = Some (VNum (float_of_Z 132))
+              | _ => False
+              end
+  | CErr _ => False
+  end.
+Proof. vm_compute. repeat split; try reflexivity. discriminate. Qed.
+
+(* a break outside a loop is outside the fragment *)
+Example C16_ex_break_outside : psfrag (SCons SBreak SNil) = false.
+Proof. reflexivity. Qed.
 
 Example C16_ex_ctl_fragment :
   pfrag2 ex_ctl = true /\
